@@ -329,11 +329,17 @@ func ruleGoSites(r *Run) {
 				"new goroutine spawn site: concurrency outside AsyncMapReduce and the subscription goroutines is not covered by the ordering/independence arguments (R1, R8, R9b)")
 		}
 	}
-	n := 0
-	for _, c := range count {
-		n += c
+	// anti-vacuity, by role rather than by a total: every listed function still starts at least
+	// one goroutine (how many it needs is its own business — a fan-out helper rewritten without a
+	// reducer goroutine has one statement less and nothing to review)
+	var names []string
+	for name := range goSites {
+		names = append(names, name)
 	}
-	r.AtLeast("R4a.go", "go statements", n, 7)
+	sort.Strings(names)
+	for _, name := range names {
+		r.AtLeast("R4a.go", "go statements of "+name, count[name], 1)
+	}
 }
 
 // ---- R4b ------------------------------------------------------------------------------
